@@ -21,6 +21,17 @@ PlugOutOK == mode = "h1" => \A bs \in Lists(NO(g)) : Den(PlugOutputs(g, bs)) = A
 IdentityOK == mode = "h1" => /\ IsIdentityCode(g) = IsIdentitySpec(g)
                              /\ IsIdentitySpec(g) => (g.sc = ROne => Den(g) = IdTensor(NI(g)))
 XToZOK == mode = "h1" => Den(XToZ(g)) = Den(g)
+\* additions (API-coverage gaps #2, #20): the specification-level statements behind Trace_Compose's copy / subg / basis events
+\* every union S of connected components: the restriction to S and to the rest are the two tensor factors of g
+SubgraphOK == mode = "h1" => \A S \in SUBSET g.vs : SubgraphSpecOK(g, S)
+\* the documented copy is the diagram / its adjoint; what the code copies (CopyCode) differs from it as soon as g has a boundary or a scalar
+CopyOK == mode = "h1" => /\ Den(CopySpec(g, TRUE)) = Dagger(Den(g), NI(g), NO(g)) /\ CopySpec(g, FALSE) = g
+                         /\ (g.ins = <<>> /\ g.outs = <<>> /\ g.sc = ROne => CopyCode(g, FALSE) = g /\ CopyCode(g, TRUE) = Adjoint(g))
+FlipSpecOK == mode = "g1" => \A b \in Basis : FlipOK(b, BFlip(b)) /\ (\A f \in Basis : FlipOK(b, f) => f = BFlip(b))
+\* plug_vertex without normalisation: sqrt2 times the normalised basis element
+PlugVertexOK == mode = "h1" => \A i \in 1..NI(g) : \A b \in Basis \ {"SKIP"} :
+                  Den([PlugVertex(g, g.ins[i], b) EXCEPT !.ins = SubSeq(g.ins, 1, i - 1) \o SubSeq(g.ins, i + 1, NI(g))])
+                    = TScale(ApplyInputs(Den(g), NI(g), NO(g), [k \in 1..i |-> IF k = i THEN b ELSE "SKIP"]), Sqrt2Pow(1))
 \* pair statements
 PlugOK == mode = "done" => LET r == Plug(g, h) IN
             /\ ~r.panic
